@@ -6,6 +6,8 @@
 package relay
 
 import (
+	xibctypes "github.com/teleport-network/teleport/x/xibc/types"
+	"github.com/teleport-network/teleport/x/xibc"
 	"bytes"
 	"crypto/sha256"
 	"encoding/hex"
@@ -905,7 +907,57 @@ func (s *Sys) Check() []bfs.Viol {
 		}
 	}
 	s.checkConservation(add)
+	s.checkRestart(add)
 	return viols
+}
+
+// checkRestart: a chain may at any point be restarted from its exported genesis; the packet state (receipts,
+// acknowledgements, commitments, send counters) must survive the module's own export -> JSON -> import unchanged,
+// otherwise the once-only guarantees of the history before the restart are void after it. Done on a throw-away
+// branch of every chain in every reachable state; faithful round trips have identical futures, so comparing the raw
+// store is equivalent to exploring the restarted chain.
+func (s *Sys) checkRestart(add addFn) {
+	for _, n := range s.w.Order {
+		c := s.w.Chains[n]
+		func() {
+			defer func() {
+				if r := recover(); r != nil {
+					add("C01", "packet-state-export-import-panics", fmt.Sprintf("%s: %v", short[n], r))
+				}
+			}()
+			ctx := c.ReadCtx()
+			before := c.DumpStoreCtx(ctx, host.StoreKey)
+			cdc := c.App.AppCodec()
+			var gs xibctypes.GenesisState
+			cdc.MustUnmarshalJSON(cdc.MustMarshalJSON(xibc.ExportGenesis(ctx, *c.App.XIBCKeeper)), &gs)
+			st := ctx.KVStore(c.App.GetKey(host.StoreKey))
+			for k := range before {
+				st.Delete([]byte(k))
+			}
+			xibc.InitGenesis(ctx, *c.App.XIBCKeeper, false, &gs)
+			after := c.DumpStoreCtx(ctx, host.StoreKey)
+			for _, d := range world.DiffStores(before, after) {
+				key := d[1:]
+				// which guarantees the changed record carries: a receipt guards exactly-once delivery (C01) and with it
+				// conservation (C03: a replayed receive mints twice); an acknowledgement its lifecycle (C05); a commitment
+				// sequencing (C04), the ack lifecycle (C05) and refunds (C03); a send counter sequencing (C04)
+				var props []string
+				switch {
+				case strings.HasPrefix(key, host.KeyPacketReceiptPrefix+"/"):
+					props = []string{"C01", "C03"}
+				case strings.HasPrefix(key, host.KeyPacketAckPrefix+"/"):
+					props = []string{"C05", "C01"}
+				case strings.HasPrefix(key, host.KeyPacketCommitmentPrefix+"/"):
+					props = []string{"C04", "C05", "C03"}
+				case strings.HasPrefix(key, host.KeyNextSeqSendPrefix+"/"):
+					props = []string{"C04"}
+				}
+				for _, prop := range props {
+					add(prop, "packet-state-changed-by-genesis-export-import/"+strings.SplitN(key, "/", 2)[0], fmt.Sprintf("chain %s restarted from its exported genesis: %s", short[n], d))
+				}
+			}
+		}()
+	}
 }
 
 // checkConservation: C03 invariants over the reference ledger.
@@ -1108,4 +1160,34 @@ func (s *Sys) EmittedPackets() [][]byte {
 		out = append(out, t.Bytes)
 	}
 	return out
+}
+
+// RestartScript is a fixed three-chain history after which every chain holds commitments, receipts and acknowledgements
+// on two paths; ScriptedViolations runs it and returns every monitor / invariant violation of the given property.
+var RestartScript = []string{"send A B erc20 3", "send B A native 1", "send A B erc20+callrevert 1", "send C B erc20 1", "send A C erc20 1", "send C A native 1", "send B C native 1",
+	"upd A B", "upd B A", "upd C A", "upd A C", "upd B C", "upd C B", "upd A B", "upd B A", "upd C A", "upd A C", "upd B C", "upd C B",
+	"recv A>B#1 g1", "recv B>A#1 g1", "recv A>B#2 g1", "recv C>B#1 g1", "recv A>C#1 g1", "recv C>A#1 g1", "recv B>C#1 g1",
+	"upd A B", "upd B A", "upd C A", "upd A C", "upd B C", "upd C B", "upd A B", "upd A C", "upd C B",
+	"ack A>B#1 g1", "ack A>C#1 g1", "ack C>B#1 g1", "send A B native 1", "ack A>B#2 g1"}
+
+type ScriptViol struct {
+	bfs.Viol
+	History []string
+}
+
+func ScriptedViolations(prop string) (steps int, out []ScriptViol) {
+	s := New(Config{Chains: 3, MaxSends: 12, Prop: prop})
+	seen := map[string]bool{}
+	for i, op := range RestartScript {
+		_, _, vs := s.Apply(op)
+		vs = append(vs, s.Check()...)
+		steps++
+		for _, v := range vs {
+			if strings.HasPrefix(v.Sig, prop+":") && !seen[v.Sig] {
+				seen[v.Sig] = true
+				out = append(out, ScriptViol{v, append([]string{}, RestartScript[:i+1]...)})
+			}
+		}
+	}
+	return
 }
